@@ -105,7 +105,7 @@ def framework_copy(vdir, rev='HEAD'):
         if rc:
             raise SystemExit(out)
     else:
-        sh(['git', 'checkout', '-q', '--detach', subprocess.check_output(
+        sh(['git', 'checkout', '-f', '-q', '--detach', subprocess.check_output(
             ['git', '-C', VERIF, 'rev-parse', rev], text=True).strip()], cwd=vdir)
     rc, out = sh([os.path.join(vdir, 'check'), '--setup'], cwd=vdir, timeout=3600)
     if rc:
